@@ -175,4 +175,13 @@ def ssParseLToksL (sgr : Style → Link → Seq → Except Panic (Style × Link)
       | .ok (s', l') => ssParseLToksL sgr s' l' r
       | .error e => .error e
 
+/-- Can the hyperlinks of these cells come back through `Encode` / `NewStyledString` (cursor link `l`)?  Parameters without `;`,
+    none for the empty URL, and the predecessor's parameters under the predecessor's URL (`Lemmas.SgrLinksFull.LinksRestorable`,
+    `restorableB_iff`). The driver's `rtl` oracle judges the links only on such cell lists. -/
+def restorableB : Link → List LCell → Bool
+  | _, [] => true
+  | l, c :: cs =>
+    !c.link.params.contains 0x3B && (c.link.url != [] || c.link.params == []) &&
+      (c.link.url != l.url || c.link.params == l.params) && restorableB c.link cs
+
 end VaxisModel.Model.SgrLinks
